@@ -167,6 +167,15 @@ def _compile_job(args):
             out.update(shape='tel', text=m2.group(2), tree=NAMES[m2.group(2)])
             out['not'] = bool(m2.group(1))
             return out
+        m3 = re.fullmatch(r'fired\(1\) :- (not )?(&(?:true|false|initial|final))\.', rule[0])
+        if m3:   # a condition that is one constant is printed as telingo's theory atom itself: same reading as &tel {&c}
+            out.update(shape='tel', text=m3.group(2))
+            out['not'] = bool(m3.group(1))
+            try:
+                out['tree'] = tel.read_formula(m3.group(2), NAMES)
+            except RuntimeError as e:
+                out['telingo_parse_error'] = str(e)[:200]
+            return out
         out['shape'] = 'other'          # e.g. a primed atom body: `fired(1) :- 'alpha(1).`
         return out
     out['shape'] = 'tel'
@@ -346,7 +355,11 @@ def main(tier):
                             break
             continue
         if 'telingo_parse_error' in c:
-            if supported:
+            if re.search(r'&tel \{.*\bnot\b', c.get('rule') or ''):
+                # a negated clause that is not the first operand: `not` is printed inside &tel{…}, where negation is `~`
+                run.violation('telingo-rejects/nested-not-inside-formula',
+                              f'telingo cannot read the emitted formula: {c["telingo_parse_error"]}', replay)
+            elif supported:
                 run.violation(f'telingo-rejects/{key_shape}', f'telingo cannot read the emitted formula: {c["telingo_parse_error"]}', replay)
             else:
                 run.violation(f'unsupported/telingo-rejects/{key_shape}', f'telingo cannot read the emitted formula: {c["telingo_parse_error"]}', replay)
